@@ -8,7 +8,7 @@ from props import searchprop as SP
 
 def run(ctx):
     prop = "C16"
-    gate, err = SP.prepare(prop)
+    gate, err = SP.prepare(prop, extra_targets=["props/ChessInstances.vo"])
     if err:
         return err
     violations, cov = [], {"samples": []}
